@@ -164,6 +164,9 @@ func textLabels(fe *fontEntry, c *Case) []string {
 			out = append(out, l)
 		}
 	}
+	for _, l := range syllLabels(item) {
+		add(l)
+	}
 	complexLetter := func(r rune) bool { return unicode.IsLetter(r) && complexAlphabetScripts[language.LookupScript(r)] }
 	for i, r := range item {
 		inner := i > 0 && i+1 < len(item)
